@@ -53,6 +53,17 @@ var engineFiles = []string{
 	"internal/engine/interpreter/interpreter.go",
 }
 
+// guarded: fields documented as "guarded by mux", per file: receiver type -> field names.  In methods
+// of that type every simple statement (and every compound statement's header) that mentions
+// <receiver>.<field> gets `<receiver>.mux.AssertHeld("<site>")` in front.
+var guarded = map[string]map[string][]string{
+	"internal/engine/interpreter/interpreter.go": {"engine": {"compiledFunctions"}},
+	"internal/engine/wazevo/engine.go":           {"engine": {"compiledModules", "sortedCompiledModules"}},
+	"internal/engine/wazevo/engine_cache.go":     {"engine": {"compiledModules", "sortedCompiledModules"}},
+	"internal/wasm/store.go":                     {"Store": {"nameToModule", "moduleList", "typeIDs"}},
+	"internal/wasm/store_module_list.go":         {"Store": {"nameToModule", "moduleList", "typeIDs"}},
+}
+
 var engineSkipPrefixes = []string{"compile", "lower", "setLabel", "serialize", "deserialize"}
 
 func engineMethod(fd *ast.FuncDecl) bool {
@@ -182,6 +193,24 @@ func rewrite(rel string, src []byte) ([]byte, error) {
 			if instrumentBlock(fset, rel, fd.Body) {
 				needRT = true
 			}
+		}
+	}
+	// 4. lock-discipline assertions
+	if g := guarded[rel]; g != nil {
+		for _, d := range f.Decls {
+			fd, ok := d.(*ast.FuncDecl)
+			if !ok || fd.Body == nil || fd.Recv == nil || len(fd.Recv.List) != 1 || len(fd.Recv.List[0].Names) != 1 {
+				continue
+			}
+			st, ok := fd.Recv.List[0].Type.(*ast.StarExpr)
+			if !ok {
+				continue
+			}
+			id, ok := st.X.(*ast.Ident)
+			if !ok || g[id.Name] == nil {
+				continue
+			}
+			assertBlock(fset, rel, fd.Body, fd.Recv.List[0].Names[0].Name, g[id.Name])
 		}
 	}
 	if needRT {
@@ -349,6 +378,94 @@ func prePoll(fset *token.FileSet, rel string, sel *ast.SelectStmt) ast.Stmt {
 			&ast.ExprStmt{X: call("Poll", &ast.BasicLit{Kind: token.STRING, Value: strconv.Quote(site)})},
 		}},
 	}
+}
+
+// mentions reports which guarded field (if any) node n mentions as recv.<field>, not descending into
+// function literals or nested blocks.
+func mentions(n ast.Node, recv string, fields []string) string {
+	found := ""
+	ast.Inspect(n, func(x ast.Node) bool {
+		switch v := x.(type) {
+		case *ast.FuncLit, *ast.BlockStmt:
+			return false
+		case *ast.SelectorExpr:
+			if id, ok := v.X.(*ast.Ident); ok && id.Name == recv && contains(fields, v.Sel.Name) {
+				found = v.Sel.Name
+			}
+		}
+		return found == ""
+	})
+	return found
+}
+
+func assertStmt(fset *token.FileSet, rel, recv, field string, pos token.Pos) ast.Stmt {
+	site := fmt.Sprintf("%s:%d %s.%s", strings.TrimPrefix(rel, "internal/"), fset.Position(pos).Line, recv, field)
+	return &ast.ExprStmt{X: &ast.CallExpr{
+		Fun:  &ast.SelectorExpr{X: &ast.SelectorExpr{X: ast.NewIdent(recv), Sel: ast.NewIdent("mux")}, Sel: ast.NewIdent("AssertHeld")},
+		Args: []ast.Expr{&ast.BasicLit{Kind: token.STRING, Value: strconv.Quote(site)}},
+	}}
+}
+
+func assertBlock(fset *token.FileSet, rel string, b *ast.BlockStmt, recv string, fields []string) {
+	if b == nil {
+		return
+	}
+	var out []ast.Stmt
+	for _, st := range b.List {
+		hdr := func(nodes ...ast.Node) {
+			for _, n := range nodes {
+				if n == nil || (fmt.Sprintf("%v", n) == "<nil>") {
+					continue
+				}
+				if f := mentions(n, recv, fields); f != "" && st.Pos().IsValid() {
+					out = append(out, assertStmt(fset, rel, recv, f, st.Pos()))
+					return
+				}
+			}
+		}
+		switch s := st.(type) {
+		case *ast.BlockStmt:
+			assertBlock(fset, rel, s, recv, fields)
+		case *ast.IfStmt:
+			if s.Init != nil {
+				hdr(s.Init)
+			}
+			hdr(s.Cond)
+			assertBlock(fset, rel, s.Body, recv, fields)
+			if e, ok := s.Else.(*ast.BlockStmt); ok {
+				assertBlock(fset, rel, e, recv, fields)
+			} else if e, ok := s.Else.(*ast.IfStmt); ok {
+				assertBlock(fset, rel, &ast.BlockStmt{List: []ast.Stmt{e}}, recv, fields)
+			}
+		case *ast.ForStmt:
+			if s.Init != nil {
+				hdr(s.Init)
+			}
+			if s.Cond != nil {
+				hdr(s.Cond)
+			}
+			assertBlock(fset, rel, s.Body, recv, fields)
+		case *ast.RangeStmt:
+			hdr(s.X)
+			assertBlock(fset, rel, s.Body, recv, fields)
+		case *ast.SwitchStmt:
+			if s.Tag != nil {
+				hdr(s.Tag)
+			}
+			for _, c := range s.Body.List {
+				if cc, ok := c.(*ast.CaseClause); ok {
+					blk := &ast.BlockStmt{List: cc.Body}
+					assertBlock(fset, rel, blk, recv, fields)
+					cc.Body = blk.List
+				}
+			}
+		case *ast.ExprStmt, *ast.AssignStmt, *ast.ReturnStmt, *ast.IncDecStmt, *ast.SendStmt:
+			// (an inserted yield or assertion has no position and mentions nothing)
+			hdr(st)
+		}
+		out = append(out, st)
+	}
+	b.List = out
 }
 
 func nested(fset *token.FileSet, rel string, st ast.Stmt) {
